@@ -148,7 +148,9 @@ impl<'a> PrettyPrinter<'a> {
                     !matches!(child.kind(), SyntaxKind::RightParen | SyntaxKind::Space)
                 })
                 .unwrap_or(children.len().saturating_sub(1));
-            children[i..=j].iter()
+            // Nothing but blanks between the parentheses: `i` then points behind `j`.
+            let range = if i <= j { i..j + 1 } else { 0..0 };
+            children[range].iter()
         };
 
         let mut peek_hashed_arg = false;
